@@ -537,3 +537,53 @@ reg(
     "completeness of alias *detection* is not demanded (C14/C15), only counted.  n=4 with >= 2 attributes is complete only "
     "over the reduced structure sets named in the evidence.",
 )
+
+CHECKS["C11"]["text"] = (
+    'Complete families of single-class models -- all scalar expression trees with <= 2 (quick) / 3 (thorough) '
+    'operators as right-hand sides, array equations, every valid subscript and slice of small 1-D/2-D arrays on '
+    'either side, for-equations (plain, shifted, sub-range, parameter bound, der), if-equations with elseif, '
+    'initial equations, der as independent input, functions with <= 2 / 3 statements (assignment, if, for; '
+    'protected temporaries; several outputs); if / elseif / else chains with every ordered selection of 2..3 '
+    'conditions from {>, <} (thorough also >=, <=) x thresholds {1,2,3} on one variable as function if-statement, '
+    'if-equation, nested if-expression and elseif-expression, evaluated inside every region between the thresholds '
+    'and on every threshold; all well-shaped matrix expression trees with <= 2 / 3 operators (unary -, + - .* ./, '
+    'matrix product, transpose, scalar factors) over 2x2 .. 3x3 matrices and 2-/3-vectors as right-hand sides, also '
+    'as der() equation, initial equation and with sides exchanged, shaped zeros/ones/fill, matrix if-expressions, '
+    'every row/column slice on the left and on both sides, square matrix ^ 0..3 and elementwise .^ -- are generated '
+    'and dae_residual_function / initial_residual_function are compared per top-level equation with lhs - rhs under '
+    'the reference semantics (Booleans 0/1, and = product, or = sum, 1-based inclusive indexing) on 4 / 8 grid '
+    'points including a tie point (chains: 7 pinned points).'
+)
+
+CHECKS["C11"]["note"] = (
+    'Finite grid; a plain equation between equal shapes is compared element by element in column-major order, '
+    'entries of for-equations, if-equations and tuple equations as a multiset; array constructors with variable '
+    'elements, literal matrices, matrix + scalar without dot, vector*matrix, vector*vector, identity / diagonal are '
+    "outside the alphabet (pymoca rejects them or they are not in the statement's list)."
+)
+
+CHECKS["C21"]["technique"] = (
+    'every prefix of the recorded file-system operations (and every byte prefix of every write) as crash state + '
+    'preemption-bounded schedules of two transfer_model callers at every file-system operation in the model folder'
+)
+
+CHECKS["C21"]["text"] = (
+    'Every file-system operation on any path in the model folder (open, write pieces, truncate, close, '
+    'replace/rename/link/remove/unlink/mkdir/utime, stat, scandir/listdir, reads), by whichever module, is '
+    'intercepted process-wide. Crash half: for two initial folder states (no cache; complete but stale cache) the '
+    'mutating operations of one real transfer_model are recorded; the folder after every prefix of that sequence '
+    'and after every byte prefix of every write is re-created and classified through load_model; the full '
+    'transfer_model is run twice and compared with a fresh compile on every operation boundary, bytes 1, 2, n-1 and '
+    'every 64th of each write and one representative per loader outcome class (thorough: every state). Schedule '
+    'half: two real transfer_model callers on one folder (no cache; stale cache) with a scheduling point before '
+    'every such operation (writes in three pieces; reads of the unmodified sources excepted) for all schedules with '
+    '<= 2 (thorough 3) preemptions; both results and a later sequential call must equal a fresh compile and nothing '
+    'may raise.'
+)
+
+CHECKS["C21"]["note"] = (
+    'A crash leaves the effects of a prefix of the operations issued, the last write cut at any byte (process '
+    'death: no power-loss reordering of un-fsynced data, no torn sectors); callers are threads with os.getpid, '
+    'tempfile names and uuid1/uuid4 virtualised per caller; one read call is atomic; codegen artefacts are not '
+    'crash-enumerated; one model.'
+)
